@@ -568,6 +568,10 @@ class RouteController:
                 self._neighbor_cache[route_entry.next_hop_ip] = next_hop
         else:
             logger.info("Neighbor %s does not exist", route_entry.next_hop_ip)
+            # the route may still be waiting for its next hop to be resolved: forget it
+            pending = self._unresolved_arp_queries_cache.get(route_entry.next_hop_ip)
+            if pending == route_entry:
+                del self._unresolved_arp_queries_cache[route_entry.next_hop_ip]
 
     def _ping_missing_entries(self):
         """Pings missing entries every 10 seconds.
